@@ -185,6 +185,18 @@ def rule_next(ck):
             g = [u(t) for t, pol in guards_of(call, f.node) if pol]
             (o.ok('cache filled during the first streamed pass and consumed (moved + deleted) at its end') if consumed and any('store' in x for x in g) else
              o.fail('the cache `_catalogs` is appended without being consumed at pass end / outside the store branch'))
+            # what is cached is what is yielded: the filters are switched off once the cache replaces the loader, so a cached catalog
+            # that is not the filtered one comes back unfiltered on every later pass
+            arg = call.args[0] if call.args else None
+            oo = ck.ob('C13-D5.cached', f, call, call)
+            rv = [r for r in ret_nodes if isinstance(r.ast.value, ast.Name)]
+            if not isinstance(arg, ast.Name) or not rv:
+                oo.unknown('cannot relate the cached object to the returned one')
+            else:
+                diff = [r for r in rv if r.ast.value.id != arg.id or set(cfg.defs_reaching(r, arg.id)) != set(cfg.defs_reaching(n, arg.id))]
+                (oo.fail('the cache receives `%s` while the pass yields `%s`: the first pass hands out filtered catalogs, every later pass (served '
+                         'from the cache, filters off) the unfiltered ones' % (arg.id, diff[0].ast.value.id)) if diff else
+                 oo.ok('the catalog as yielded'))
             continue
         resets = [d for d in cfg.nodes if ('self.' + fld) in d.defs and isinstance(d.ast, ast.Assign) and
                   isinstance(d.ast.value, (ast.List, ast.Call)) and u(d.ast.value) in ('[]', 'list()')]
@@ -464,6 +476,20 @@ def rule_consumers(ck):
         (o.fail('%s: the forecast hands the same object out again (stored catalogs, cached expected rates), so later passes, counts and '
                 'rates differ from the first' % bad[0][1]) if bad else o.ok('owned: %s' % (sorted(owned) or ['forecast.expected_rates'])))
     ck.extra['consumers_checked'] = n
+    # ... and they reach the synthetic catalogs only through the iterator: the container behind it (`forecast.catalogs`, `_catalogs`) is
+    # a list at one time and the generator of the next streamed pass at another - consuming it directly skips the filters and leaves the
+    # next pass empty - and the cursor is nobody's business
+    PRIVATE = ('catalogs', '_catalogs', '_idx', '_event_counts', 'loader')
+    for f in P.funcs.values():
+        if f.module.name not in ('csep.core.catalog_evaluations',):
+            continue
+        fc = [p_ for p_ in f.params if 'forecast' in p_ and 'forecasts' not in p_]
+        if not fc:
+            continue
+        uses = [x for x in all_nodes(f) if isinstance(x, ast.Attribute) and x.attr in PRIVATE and isinstance(x.value, ast.Name) and x.value.id in fc]
+        o = ck.ob('C13-D10.iterator', f, 'the catalogs are reached through the iterator only', uses[0] if uses else f.node)
+        (o.fail('`%s` reaches behind the iterator of the forecast: for a streamed forecast this is the generator of the next pass (unfiltered, '
+                'and exhausted afterwards, so the forecast learns n_cat = 0)' % u(uses[0])) if uses else o.ok())
 
 
 def _loops_between(node, outer):
